@@ -5,7 +5,8 @@ EXPLANATION = 'Bounded stand-in, exhaustive within the stated bound: the compile
 
 
 def p_parts():
-    return []
+    from ._generic import optional_parts
+    return optional_parts(("_assembly", "p_assembly"))
 
 
 def run(ctx):
